@@ -15,6 +15,14 @@ ENGINES = [
 TB = 'trusted: the harness code and its oracles, rustc/std, Python 3 stdlib; decides only the executions it produced'
 
 META = {
+    'C05': dict(claimed=True, engine='svh c05', category='exploration', design_ref='DESIGN.md §4 C05',
+                technique='runtime monitoring: naive min/max fold oracle over constructor boxes, record bytes and header bytes of real writer output',
+                text='Held on every generated sequence: constructor box, stored record box, header bytes 36..100 and the reader view, with extremes forced into every position class and values at/around the sentinels (+-inf, f64::MAX/MIN, +-0).',
+                note=TB + '; header M only claimed when every measure is real data and the type is not Multipatch; n>=1'),
+    'C06': dict(claimed=True, engine='svh c06', category='exploration', design_ref='DESIGN.md §4 C06',
+                technique='runtime monitoring: differential typed-vs-generic reads over the exhaustive 13x14 type matrix against a hard-coded table',
+                text='The (requested type, record type) matrix and all 14 variants are enumerated completely in both tiers for every typed read API; shapes inside the files are sampled.',
+                note=TB + '; the enum->code mapping used to compare error fields is itself swept by C19'),
     'C16': dict(claimed=True, engine='svh c16', category='exploration', design_ref='DESIGN.md §4 C16',
                 technique='runtime monitoring: differential oracle (exact integer shoelace, close/reverse) over generated ring lists',
                 text='Held on every generated ring list: closure, exact orientation (exact pool), vertex preservation, role tags, idempotence, patch handling; sampled input space steered at degenerate rings.',
